@@ -254,7 +254,7 @@ pub fn gen_op(rng: &mut Rng, cfg: &Config, class: usize, out: &mut Vec<Op>) {
         }
         "roundtrip" => {
             let dst = if ns >= 2 && rng.chance(2, 3) { other(rng, slot) } else { slot };
-            out.push(Op::RoundTrip { src: slot, dst, enc: rng.below(crate::medium::NENC as u64) as u8 });
+            out.push(Op::RoundTrip { src: slot, dst, enc: rng.below(crate::medium::NENC as u64) as u8, in_place: rng.chance(1, 4) });
             if dst != slot && rng.chance(2, 3) {
                 out.push(Op::Lockstep { a: slot, b: dst, on: true });
             }
@@ -285,11 +285,12 @@ pub fn gen_op(rng: &mut Rng, cfg: &Config, class: usize, out: &mut Vec<Op>) {
                     pos: rng.below(1 << 20) as usize,
                     arg: rng.below(8) as i64,
                 }],
+                in_place: rng.chance(1, 3),
             });
         }
         "ser_de_error" => {
             let dst = if ns >= 2 && rng.chance(2, 3) { other(rng, slot) } else { slot };
-            let inner = Op::RoundTrip { src: slot, dst, enc: rng.below(crate::medium::NENC as u64) as u8 };
+            let inner = Op::RoundTrip { src: slot, dst, enc: rng.below(crate::medium::NENC as u64) as u8, in_place: rng.chance(1, 3) };
             out.push(Op::FaultAt { kind: (*rng.pick(&["de", "de", "ser"])).to_string(), k: rng.geometric(1, 60, 6) as u32, as_error: true, inner: Box::new(inner) });
         }
         "lockstep" => {
@@ -448,7 +449,7 @@ pub fn gen_continuation(rng: &mut Rng, slot: u8, n: u64) -> Vec<Op> {
             3 => out.push(Op::Entry { slot, pick: pick_live(rng), steps: entry_steps(rng) }),
             4 => out.push(Op::Query { slot, q: rng.below(g::QUERIES.len() as u64) as u16, mode: 0, split: 0, salt: Some(rng.next_u64()) }),
             5 => out.push(Op::Shrink { slot }),
-            6 => out.push(Op::RoundTrip { src: slot, dst: slot, enc: rng.below(crate::medium::NENC as u64) as u8 }),
+            6 => out.push(Op::RoundTrip { src: slot, dst: slot, enc: rng.below(crate::medium::NENC as u64) as u8, in_place: false }),
             7 => out.push(Op::Clear { slot }),
             _ => out.push(Op::Remove { slot, pick: pick_dead(rng) }),
         }
